@@ -2,7 +2,8 @@
    multitask_covariance.py).  The Gram matrix of the multitask kernel over n points is the entrywise product of the physical and the task Gram
    matrices (times the process variance, which the code puts into the physical factor); it is positive semi-definite whenever the physical
    Gram matrix has a factor P = L L' (the form in which a PSD matrix is used throughout, cf. C17) and the task Gram matrix is PSD.
-   PSD of the radial kernels' own Gram matrices stays a hypothesis (Schoenberg; decided by the eigenvalue search of the plug-in). *)
+   PSD of the SquareExponential Gram matrices (any n, any dimension) and of the one-dimensional C0 Gram matrices is proved in
+   Props/C03_se_psd.v / Props/C03_c0_1d_psd.v; for the other Matern cases it stays a hypothesis (Schoenberg; eigenvalue search of the plug-in). *)
 From Coq Require Import Reals Arith.
 From LV Require Import Lib.RBase Gen.GenMultitask Proofs.Hadamard.
 Open Scope R_scope.
